@@ -210,7 +210,13 @@ func runC06(c *core.Ctx) {
 			pending[i]++
 			c.Event("peer%d delivers tx%d", p, i)
 		case 2: // retry poll for one peer
-			got, err := m.GetTxRequests(ctx, peers[p], 1000)
+			// the caller's limit is a knob too (production: 10000): a small one leaves requestable
+			// transactions behind, which must stay requestable for the next poll
+			max := []int{1000, 1000, 1, 2, 3}[t.Draw(5)]
+			if max < 1000 {
+				c.Probe("retry-poll-with-small-limit")
+			}
+			got, err := m.GetTxRequests(ctx, peers[p], max)
 			var want []int
 			uncertain := map[int]bool{}
 			for j, sj := range spec {
@@ -243,13 +249,26 @@ func runC06(c *core.Ctx) {
 			}
 			gotAll := gotIdx
 			gotIdx = certain
-			_ = gotAll
-			if err != nil || fmt.Sprint(gotIdx) != fmt.Sprint(want) {
-				cls := "extra"
-				if len(gotIdx) < len(want) {
-					cls = "missing"
+			wantSet := map[int]bool{}
+			for _, j := range want {
+				wantSet[j] = true
+			}
+			bad := err != nil
+			cls := "extra"
+			for _, j := range gotIdx {
+				if !wantSet[j] {
+					bad = true
 				}
-				c.Fail("c06.retry-poll", cls, "GetTxRequests(peer%d) returned %v (err %v), reference says %v are requestable from this peer now", p, gotIdx, err, want)
+			}
+			if len(gotAll) < max && len(gotIdx) < len(want) {
+				// the limit was not reached, so nothing requestable may be left behind
+				bad, cls = true, "missing"
+			}
+			if len(gotAll) >= max && len(gotIdx) < len(want) {
+				c.Probe("retry-poll-cut-by-limit")
+			}
+			if bad {
+				c.Fail("c06.retry-poll", cls, "GetTxRequests(peer%d, max %d) returned %v (err %v), reference says %v are requestable from this peer now", p, max, gotIdx, err, want)
 			}
 			for _, j := range gotIdx {
 				grant(j, now, p, "retry-poll")
@@ -502,12 +521,12 @@ func runC06EndToEnd(c *core.Ctx) {
 func init() {
 	core.Register(&core.Property{
 		ID: "C06", Engine: "G", Level: "exploration", Bubble: true,
-		Rule: "Engine G phase: each run is one of two worlds inside a synctest bubble. (a) manager world: a real TxManager with its Run consumer and a counting processor/saver; 2-5 peers issue tape-chosen AddTxID / AddTx / GetTxRequests calls over 1-6 txids (three forced into one bucket), with the fake clock held (simultaneous events) or advanced by 0, 1 ms, timeout/2, timeout-1ns, timeout, timeout+1ms, 3*timeout; every answer is compared with a sequential reference, grants are checked for at most one per txid per timeout window and none after delivery, and the processor/saver counts must be exactly one per delivered (relevant) txid after every step. (b) end-to-end world: 2-4 verified real BitcoinNodes share the manager; scripted peers send inv (also the same tx from two peers in the same instant), answer getdata (classic or extended tx) or ignore it, deliver unsolicited, and the retry poll runs as time advances; getdata messages seen by the peers are the grants; non-trivial = every run; distinct = distinct hash of the canonical event log Engine F phase (second search phase, instrumented build, see DESIGN.md 2.4): 2-4 peers on their own goroutines call AddTxID/AddTx/GetTxRequests on a real TxManager (one txid per bucket) in 1-5 phases with tape-chosen clock steps around the request timeout, while TxManager.Run forwards to the processor; the tape's scheduler chooses which goroutine executes the next statement, the poll order of selects and which goroutines stall; every call is stamped with the scheduler's global event sequence at invocation and return and the history is checked per transaction for linearizability against the sequential request rule (porcupine), then every delivered tx must have reached the processor (and saver, if relevant) exactly once",
+		Rule: "Engine G phase: each run is one of two worlds inside a synctest bubble. (a) manager world: a real TxManager with its Run consumer and a counting processor/saver; 2-5 peers issue tape-chosen AddTxID / AddTx / GetTxRequests calls (retry polls with limit 1, 2, 3 or 1000: what a small limit leaves behind must stay requestable) over 1-6 txids (three forced into one bucket), with the fake clock held (simultaneous events) or advanced by 0, 1 ms, timeout/2, timeout-1ns, timeout, timeout+1ms, 3*timeout; every answer is compared with a sequential reference, grants are checked for at most one per txid per timeout window and none after delivery, and the processor/saver counts must be exactly one per delivered (relevant) txid after every step. (b) end-to-end world: 2-4 verified real BitcoinNodes share the manager; scripted peers send inv (also the same tx from two peers in the same instant), answer getdata (classic or extended tx) or ignore it, deliver unsolicited, and the retry poll runs as time advances; getdata messages seen by the peers are the grants; non-trivial = every run; distinct = distinct hash of the canonical event log Engine F phase (second search phase, instrumented build, see DESIGN.md 2.4): 2-4 peers on their own goroutines call AddTxID/AddTx/GetTxRequests on a real TxManager (one txid per bucket) in 1-5 phases with tape-chosen clock steps around the request timeout, while TxManager.Run forwards to the processor; the tape's scheduler chooses which goroutine executes the next statement, the poll order of selects and which goroutines stall; every call is stamped with the scheduler's global event sequence at invocation and return and the history is checked per transaction for linearizability against the sequential request rule (porcupine), then every delivered tx must have reached the processor (and saver, if relevant) exactly once",
 		Real: append([]string{"TxManager (AddTxID, AddTx, GetTxRequests, Run, sendTx: real code)"}, nodeReal...), Stub: nodeStub,
 		Assumptions: []string{"Engine F phase: statement granularity in tx_manager.go; one txid per bucket because the iteration order of a Go map inside GetTxRequests is not a choice the simulation owns (bucket collisions are covered by the G phase); the clock stands still within a phase", "manager calls of different peers are issued one at a time by the driver (call-granularity interleaving, including several calls at the same fake instant); deliveries (AddTx) run on their own goroutine and can be held at the two marked scheduling points (between the bucket lock and the entry lock, and before the tx is forwarded) while other calls proceed; other interleavings inside one call are not controlled by this engine",
 			"the sequential reference is the property's own rule: first announcer is asked; others are remembered; after the timeout an announcement or a retry poll re-requests; nothing is requested after delivery"},
 		FaultKinds:   []string{"fragmentation", "delivery-delay", "stalled-delivery-released", "schedule:goroutine-stalled"},
-		ProbeNames:   []string{"history-linearizable", "linearizability-check-inconclusive", "same-tx-delivered-concurrently", "run-with-stalled-deliveries", "announcement-during-stalled-delivery", "announcement-while-outstanding", "re-request-after-timeout-on-announcement", "retry-granted", "unsolicited-delivery", "duplicate-delivery", "getdata-seen", "request-ignored-by-peer", "retry-request-sent", "same-tx-announced-by-two-peers-same-instant"},
+		ProbeNames:   []string{"history-linearizable", "linearizability-check-inconclusive", "same-tx-delivered-concurrently", "run-with-stalled-deliveries", "announcement-during-stalled-delivery", "announcement-while-outstanding", "re-request-after-timeout-on-announcement", "retry-granted", "retry-poll-with-small-limit", "retry-poll-cut-by-limit", "unsolicited-delivery", "duplicate-delivery", "getdata-seen", "request-ignored-by-peer", "retry-request-sent", "same-tx-announced-by-two-peers-same-instant"},
 		Run:          runC06,
 		QuickSeconds: 20, ThoroughSeconds: 600, MinRuns: 300, BatchSize: 50, RunTimeoutSeconds: 240,
 		FQuickSeconds: 10, FThoroughSeconds: 300,
